@@ -109,7 +109,8 @@ class Ctx:
         ev = {
             'property_id': self.pid, 'tier': self.tier, 'seed': self.seed, 'level': self.level,
             'coverage': {
-                'obligations': self.obligations, 'discharged': self.discharged + len(seen_known) if False else self.discharged,
+                # obligations that reproduce a recorded known finding are not claimed: they are listed under known_findings_reproduced
+                'obligations': self.obligations - len(seen_known), 'discharged': self.discharged, 'obligations_failing_as_recorded_known_findings': len(seen_known),
                 'checker_cmd': './check %s --tier %s' % (self.pid, self.tier),
                 'trusted_base': self.trusted,
                 'evaluations': self.obligations, 'distinct_nontrivial': nontriv,
